@@ -13,6 +13,7 @@ import (
 	"github.com/tendermint/tendermint/mempool"
 	mempoolv0 "github.com/tendermint/tendermint/mempool/v0"
 	mempoolv1 "github.com/tendermint/tendermint/mempool/v1"
+	"github.com/tendermint/tendermint/proxy"
 	"github.com/tendermint/tendermint/types"
 )
 
@@ -64,6 +65,22 @@ func (a *vpMemConn) deliverOne() bool {
 	rr.InvokeCallback()
 	return true
 }
+
+// vpFullClient lets the mempool connection be wrapped by the node's real proxy.NewAppConnMempool
+// (whose FlushSync is the barrier BlockExecutor.Commit relies on); only the mempool methods exist.
+type vpFullClient struct {
+	abcicli.Client
+	m *vpMemConn
+}
+
+func (c vpFullClient) SetResponseCallback(cb abcicli.Callback) { c.m.SetResponseCallback(cb) }
+func (c vpFullClient) Error() error                            { return c.m.Error() }
+func (c vpFullClient) FlushAsync() *abcicli.ReqRes             { return c.m.FlushAsync() }
+func (c vpFullClient) FlushSync() error                        { return c.m.FlushSync() }
+func (c vpFullClient) CheckTxSync(req abci.RequestCheckTx) (*abci.ResponseCheckTx, error) {
+	return c.m.CheckTxSync(req)
+}
+func (c vpFullClient) CheckTxAsync(req abci.RequestCheckTx) *abcicli.ReqRes { return c.m.CheckTxAsync(req) }
 
 // vpConsConn is the consensus connection; it looks at the mempool connection when Commit arrives.
 type vpConsConn struct {
@@ -117,7 +134,7 @@ func vpC05Quiesce(nBefore int, concurrent bool) {
 	st, _, _, _ := vpC06State()
 	memConn := &vpMemConn{}
 	cons := &vpConsConn{mem: memConn}
-	mp := mempoolv0.NewCListMempool(config.DefaultMempoolConfig(), memConn, 1)
+	mp := mempoolv0.NewCListMempool(config.DefaultMempoolConfig(), proxy.NewAppConnMempool(vpFullClient{m: memConn}), 1)
 	be := NewBlockExecutor(NewStore(dbm.NewMemDB(), StoreOptions{}), log.NewNopLogger(), cons, vpUpdWatch{mp, memConn}, EmptyEvidencePool{})
 	var submitted []types.Tx
 	for i := 0; i < nBefore; i++ {
@@ -177,7 +194,7 @@ func VP_C05_Quiesce_v1_concurrent() {
 	st, _, _, _ := vpC06State()
 	memConn := &vpMemConn{}
 	cons := &vpConsConn{mem: memConn}
-	mp := mempoolv1.NewTxMempool(log.NewNopLogger(), config.DefaultMempoolConfig(), memConn, 1)
+	mp := mempoolv1.NewTxMempool(log.NewNopLogger(), config.DefaultMempoolConfig(), proxy.NewAppConnMempool(vpFullClient{m: memConn}), 1)
 	be := NewBlockExecutor(NewStore(dbm.NewMemDB(), StoreOptions{}), log.NewNopLogger(), cons, vpUpdWatchV1{mp, memConn}, EmptyEvidencePool{})
 	block, _ := st.MakeBlock(2, nil, types.NewCommit(1, 0, st.LastBlockID, nil), nil, st.Validators.GetProposer().Address)
 	done := make(chan struct{})
